@@ -98,7 +98,11 @@ type KnownFinding struct {
 	Property string `json:"property"`
 	Rule     string `json:"rule"`
 	Key      string `json:"key"`
-	What     string `json:"what"`
+	// Match, when set, must occur in the violation's detail: the finding is the
+	// specific failure observed (e.g. the exact authenticator set generated), so a
+	// different failure at the same construct is still reported as a violation.
+	Match string `json:"match,omitempty"`
+	What  string `json:"what"`
 }
 type FixedFinding struct {
 	Property string `json:"property"`
@@ -181,7 +185,7 @@ func (r *Report) Finish() int {
 			nOK++
 			continue
 		}
-		if k, ok := kidx[r.Prop+"\x00"+o.Rule+"\x00"+o.Key]; ok {
+		if k, ok := kidx[r.Prop+"\x00"+o.Rule+"\x00"+o.Key]; ok && (k.Match == "" || strings.Contains(o.Detail, k.Match)) {
 			o.Known = k.What
 			nKnown++
 			id := o.Rule + "\x00" + o.Key
